@@ -29,6 +29,8 @@ type Case struct {
 	// (HugeWrap 0), the second ring of a polygon (1), or a member of a collection (2)
 	Huge     int `json:"huge,omitempty"`
 	HugeWrap int `json:"huge_wrap,omitempty"`
+	// Nest n > 0: G is wrapped (at run time) in n nested collections, 2000 to 20000 - "nested to any depth"
+	Nest int `json:"nest,omitempty"`
 }
 
 func hugeG(n, wrap int) vkit.GJ {
@@ -57,6 +59,9 @@ func gen(t *rapid.T) Case {
 	if c.Neg == "" && rapid.IntRange(0, 39).Draw(t, "deep") == 17 {
 		// inside 15 to 66 nested collections
 		c.G = vkit.WrapDeep(c.G, rapid.SampledFrom([]int{16, 16, 32, 64}).Draw(t, "deepn")+rapid.IntRange(-1, 2).Draw(t, "deepoff"), rapid.Uint64().Draw(t, "deeppat"))
+	}
+	if c.Neg == "" && rapid.IntRange(0, 299).Draw(t, "nest") == 123 {
+		c.Nest = rapid.SampledFrom([]int{2000, 9999, 10001, 12000, 20000}).Draw(t, "nestn")
 	}
 	if c.Neg == "" && rapid.IntRange(0, 149).Draw(t, "huge") == 77 {
 		c.Huge = rapid.OneOf(rapid.IntRange(65530, 65545), rapid.IntRange(130040, 130060), rapid.IntRange(131065, 131080), rapid.IntRange(140000, 300000)).Draw(t, "hugen")
@@ -139,6 +144,10 @@ func run(c Case) (v vkit.Verdict) {
 	if c.Huge > 0 && c.Neg == "" {
 		c.G = hugeG(c.Huge, c.HugeWrap)
 		v.Class("array_of_65000_to_300000_points")
+	}
+	if c.Nest > 0 && c.Neg == "" && c.Huge == 0 {
+		c.G = vkit.WrapDeep(c.G, c.Nest, 0)
+		v.Class("nested_thousands_deep")
 	}
 	var bo binary.ByteOrder = binary.LittleEndian
 	if c.BigEndian {
@@ -297,7 +306,8 @@ func TestProp(t *testing.T) {
 			"coordinates from arbitrary 64-bit patterns; 2.5% of the cases carry a point array of 500-5000 points with lengths concentrated around multiples of 1024, the decoder's read block; under 1% are wide containers - a collection, multi-line-string or multi-polygon of 1000-12000 members, concentrated around 10000, optionally ending in a small nested collection) x encoder byte order x per-element byte-order list for an independent " +
 			"OGC WKB writer; non-trivial = nesting depth>=2, or an empty member, or a NaN/Inf/-0/subnormal coordinate, or mixed " +
 			"per-element byte orders; distinct = distinct FNV-64 hash of the case JSON" +
-			" Round 10: one case in 150 is a single point array of 65 530 to 300 000 points (around 65 536, 130 048, 131 072 and up to 300 000) as a line string, a polygon ring or inside a collection.",
+			" Round 10: one case in 150 is a single point array of 65 530 to 300 000 points (around 65 536, 130 048, 131 072 and up to 300 000) as a line string, a polygon ring or inside a collection." +
+			" Round 12: one case in 300 is wrapped in 2000, 9999, 10001, 12000 or 20000 nested collections.",
 		Assumptions: []string{"the reference serializer in props/c05 follows the OGC simple-features WKB layout", "nil and empty slices are identified"},
 		Gen:         gen,
 		Run:         run,
